@@ -18,7 +18,7 @@ SHARDS = {'quick': 16, 'thorough': 64}
 TIMEOUT = {'quick': 1500, 'thorough': 7200}
 MUST_HIT = ['EarlierObject.rechecked', 'Mapping.whole-model', 'Mapping.component', 'Mapping.derived-attributes', 'Mapping.after-edit',
             'Mapping.simple', 'Mapping.linked', 'Mapping.subsuper', 'Mapping.reflexive', 'Schema.roundtrip',
-            'Mapping.real-model-edit', 'Mapping.unsupported-attribute-type', 'Mapping.identifier-of-derived-attribute',
+            'Mapping.real-model-edit', 'Mapping.unsupported-attribute-type', 'Mapping.identifier-of-derived-attribute', 'Mapping.identifier-mixing-plain-and-derived',
             'Mapping.subtypes-on-compound-identifier', 'Mapping.relationship-number-used-twice']
 MUST_REACH = ['bridgepoint/ooaofooa.py:mk_class', 'bridgepoint/ooaofooa.py:mk_simple_association',
               'bridgepoint/ooaofooa.py:mk_linked_association', 'bridgepoint/ooaofooa.py:mk_subsuper_association',
@@ -209,6 +209,12 @@ def random_diagram(rng, derived_keys=False, extras=False):
             if ders and rng.random() < 0.6:
                 STATS['identifier-of-derived-attribute'] = STATS.get('identifier-of-derived-attribute', 0) + 1
                 c.identifiers.append([ders[0]])
+            plain = [a.name for a in c.attrs[1:] if a.derived is None and a.type in TYPES]
+            if ders and plain and rng.random() < 0.6:
+                # an identifier that mixes a plain and a derived attribute: without derived attributes it cannot be
+                # stated at all (a part of it would be a constraint the model does not make)
+                c.identifiers.append([plain[0], ders[-1]] if rng.random() < 0.5 else [ders[-1], plain[0]])
+                STATS['identifier-mixing-plain-and-derived'] = STATS.get('identifier-mixing-plain-and-derived', 0) + 1
     return d
 
 
